@@ -164,16 +164,21 @@ class SymList:
     Ghost state supplied by the loop contract: ``off`` with off(0) = 0 and off(s+1) = off(s) + lens(s) -- the prefix offsets of the rows.
     append() keeps the ghost consistent by an obligation (off(n+1) = off(n) + rows of the appended item)."""
 
-    def __init__(self, length, item, lens=None, off=None, scalar=False):
+    def __init__(self, length, item, lens=None, off=None, scalar=False, on_append=None):
         self.length = length
         self.item = item          # s -> Arr (or scalar when scalar=True)
         self.lens = lens          # s -> number of rows of item s
         self.off = off            # ghost prefix offsets (z3 function Int -> Int) or None
         self.scalar = scalar
+        self.on_append = on_append   # lists of objects: the contract checks that the appended object is the specified item at that position
 
     def append(self, eng, v):
         I, M = _I(), _M()
         v = M.unwrap(v)
+        if self.on_append is not None:
+            self.on_append(eng, self.length, v)        # emits the obligations "v is item(length)"; the item function already covers that position
+            self.length = T.add(self.length, 1)
+            return
         n, old_item, old_lens = self.length, self.item, self.lens
         if self.scalar:
             if not T.is_scalar(v):
